@@ -1151,9 +1151,9 @@ pub fn run(focus: Focus, tier: Tier, out: &mut Output) {
     // configuration on 16 cores). thorough: the wire-only focuses reach deeper because B is not
     // exercised; the wall cap is reported (`exhaustive:false`) if a level does not complete.
     let depth = match focus {
-        Focus::C01 | Focus::C02 => tier.pick(7, 8),
+        Focus::C01 | Focus::C02 => tier.pick(7, 9),
         Focus::C03 => tier.pick(7, 9),
-        Focus::C12 => tier.pick(7, 11),
+        Focus::C12 => tier.pick(7, 10),
     };
     let wall = tier.pick(17.0, 190.0);
     for cfg in CONFIGS.iter().copied() {
